@@ -400,7 +400,13 @@ class Inliner(object):
 
                     def thr(d, er=er):
                         if d.get('k') == 'var' and d.get('n') == ret_var['n']:
-                            return copy.deepcopy(er)
+                            r = copy.deepcopy(er)
+                            r0 = r
+                            while isinstance(r0, dict) and r0.get('k') in ('cast', 'tobool', 'paren'):
+                                r0 = r0.get('e')
+                            if isinstance(r0, dict) and r0.get('k') == 'bin' and r0.get('op') in ('&&', '||'):
+                                r0['val'] = True        # the helper computed it as a value: no branch on its operands here
+                            return r
                         return None
                     nb['term'] = _map(copy.deepcopy(cont['term']), thr)
                     nb['succ'] = list(cont['succ'])
@@ -499,7 +505,8 @@ def desugar_block_ops(facts):
     def ptr(a):
         while isinstance(a, dict) and a.get('k') in ('cast', 'paren'):
             a = a.get('e')
-        return isinstance(a, dict) and (a.get('tk') == 'ptr' or 'char *' in (a.get('ty') or ''))
+        # bytes only: the count of memset / memmove is a byte count
+        return isinstance(a, dict) and 'char *' in (a.get('ty') or '') and '**' not in (a.get('ty') or '')
 
     def minus(q, p_):
         # q - p; `p + n - p` folds to n
